@@ -1777,12 +1777,39 @@ func (kmc *KeystoreManagerForPoC) ChangePrivPassphrase(oldPrivPass, newPrivPass 
 		return err
 	}
 
+	// Collect everything that can fail (salts, read-back of the new encrypted crypto
+	// keys) for all keystores first, so that a failure leaves every keystore in memory
+	// untouched instead of updating only some of them.
+	type privUpdate struct {
+		addrManager    *AddrManager
+		passphraseSalt [saltSize]byte
+		cPrivKeyEnc    []byte
+	}
+	updates := make([]*privUpdate, 0, len(kmc.managedKeystores))
 	for _, addrManager := range kmc.managedKeystores {
-		var passphraseSalt [saltSize]byte
-		_, err = rand.Read(passphraseSalt[:])
+		update := &privUpdate{addrManager: addrManager}
+		_, err = rand.Read(update.passphraseSalt[:])
 		if err != nil {
 			return err
 		}
+		err = db.View(kmc.db, func(dbTransaction db.ReadTransaction) error {
+			amBucket := dbTransaction.FetchBucket(addrManager.storage)
+			var err error
+			_, update.cPrivKeyEnc, err = fetchCryptoKeys(amBucket)
+			if err != nil {
+				return err
+			}
+			return nil
+		})
+		if err != nil {
+			return err
+		}
+		updates = append(updates, update)
+	}
+
+	for _, update := range updates {
+		addrManager := update.addrManager
+		passphraseSalt := update.passphraseSalt
 		// When the manager is locked, ensure the new clear text master
 		// key is cleared from memory now that it is no longer needed.
 		// If unlocked, create the new passphrase hash with the new
@@ -1795,20 +1822,7 @@ func (kmc *KeystoreManagerForPoC) ChangePrivPassphrase(oldPrivPass, newPrivPass 
 			zero.Bytes(saltedPassphrase)
 		}
 
-		var cPrivKeyEnc []byte
-		err = db.View(kmc.db, func(dbTransaction db.ReadTransaction) error {
-			amBucket := dbTransaction.FetchBucket(addrManager.storage)
-			var err error
-			_, cPrivKeyEnc, err = fetchCryptoKeys(amBucket)
-			if err != nil {
-				return err
-			}
-			return nil
-		})
-		if err != nil {
-			return err
-		}
-		copy(addrManager.cryptoKeyPrivEncrypted, cPrivKeyEnc)
+		copy(addrManager.cryptoKeyPrivEncrypted, update.cPrivKeyEnc)
 		addrManager.masterKeyPriv.Zero()
 		addrManager.masterKeyPriv = newMasterPrivKey
 		if !addrManager.unlocked {
